@@ -572,6 +572,21 @@ impl<'a> World<'a> {
     fn make_advert(&mut self, s: usize) -> Advert {
         let mut adv = self.make_honest_advert(s);
         let n = self.signers[s].sent;
+        // a second device for somebody else's seed: this signer also lists the key sources of the
+        // next signer (exactly, or one step up), under its own capabilities. The coordinator then
+        // holds several sources for one key with different capabilities; any one that allows a
+        // signature makes the key available.
+        if self.signers.len() > 1 && self.dec.choose(&format!("codevice:s{}#{}", s, n), 5) == 1 {
+            let t = (s + 1) % self.signers.len();
+            let up = self.dec.choose(&format!("codevice-up:s{}#{}", s, n), 2) == 1;
+            for k in self.env.uni.keys.iter().filter(|k| k.owner == t) {
+                let (f, p) = k.origin.clone();
+                let v: Vec<_> = p.into_iter().cloned().collect();
+                let path = if up && !v.is_empty() { DerivationPath::from(v[..v.len() - 1].to_vec()) } else { DerivationPath::from(v) };
+                adv.keys.push((f, path));
+            }
+            self.stats.probe("overlapping_key_sources");
+        }
         let h = self.dec.fault(Fault::HostileAdvert, &format!("s{}#{}", s, n), 5, 100, 6);
         if h != 0 {
             adv.hostile = true;
@@ -608,7 +623,7 @@ impl<'a> World<'a> {
                 }
                 _ => {
                     // every hash preimage claimed
-                    adv.hashes = self.env.uni.hashes.iter().map(|h| h.id).collect();
+                    adv.hashes = self.env.uni.hashes.iter().filter(|h| h.usable).map(|h| h.id).collect();
                 }
             }
         }
